@@ -7,6 +7,6 @@ for p in mutants/$id/*.patch; do
   [ -e "$p" ] || continue
   out=$(python3 tools/mutant.py "$id" "$p" "$@" 2>&1); e=$?
   rm -rf replays/$id/found
-  if [ $e -eq 1 ]; then echo "KILLED   $p"; else echo "SURVIVED $p (exit $e)"; echo "$out" | tail -5; rc=1; fi
+  if [ $e -eq 1 ] && echo "$out" | grep -q "^VIOLATION property="; then echo "KILLED   $p"; else echo "SURVIVED $p (exit $e)"; echo "$out" | tail -5; rc=1; fi
 done
 exit $rc
